@@ -311,3 +311,26 @@ def concrete_decode(cpu, mode, data):
                 it.clear()
                 it.update(snap)
     return i
+
+
+def siblings(r, data, limit=24):
+    """inputs that differ from the witness in ONE ModRM/SIB-like field (bits 2..0, 5..3 or 7..6) of a byte that a capped
+    realize site depends on (the exploration followed only 2 values of such a selector)"""
+    ks = []
+    for ent in (r.caps or []):
+        if len(ent) < 3:
+            continue
+        for k in sorted(_used_bytes([ent[2]])):
+            if k not in ks and k < len(data):
+                ks.append(k)
+    out = []
+    for k in ks:
+        for lo, hi in ((0, 2), (3, 5), (6, 7)):
+            mask = ((1 << (hi - lo + 1)) - 1) << lo
+            for val in range(1 << (hi - lo + 1)):
+                b = (data[k] & ~mask) | (val << lo)
+                if b != data[k]:
+                    out.append(bytes(data[:k]) + bytes([b]) + bytes(data[k + 1:]))
+                if len(out) >= limit:
+                    return out
+    return out
